@@ -963,6 +963,9 @@ EXC_CLASSES = ["TypeError", "ValueError", "KeyError", "IndexError", "AttributeEr
                "Exception", "ZeroDivisionError", "UnicodeError", "StopIteration", "AssertionError", "NotImplementedError", "BadStr"]
 
 
+SUPP_FLOWS = ("file-root", "complete-path", "elicit-example", "alias-strategies")
+
+
 class HelperFlows(Suite):
     """the remaining helper functions of types/content.py, types/tools.py, types/elicitation.py driven
     end to end under both backends: content predicates / content_to_dict / parse_content on dicts and
@@ -972,6 +975,7 @@ class HelperFlows(Suite):
     through a generated builder the Lean evaluation of that builder predicts the emitted object."""
 
     name = "helper-flows"
+    supp_notes: list = []
     supplementary = True  # model side: the generated builder call_tool uses; the oracle is core
 
     def cases(self, ctx, budget):
@@ -1051,6 +1055,32 @@ class HelperFlows(Suite):
                 out.append({"flow": "completion-provider", "n": n_, "argument": {"name": "a", "value": rng.choice(["", "v", "%s"])},
                             "refs": [{"type": "ref/resource", "uri": "file:///x"}, {"type": "ref/prompt", "name": "p"},
                                      {"type": "ref/prompt", "name": "unknown"}, {"type": "other"}]})
+        # path helpers of the roots module: path -> file:// root -> path (and the os.name == "nt" branches)
+        for pth in ["/tmp/a", "/tmp/x y/ü.txt", "rel/file", ".", "/", "/tmp/%41", "/tmp/a#b?c", "/tmp/trail/"]:
+            out.append({"flow": "file-root", "path": pth, "name": rng.choice([None, "n", ""])})
+        out.append({"flow": "file-root", "path": "/tmp/a", "os_name": "nt"})
+        for uri in ["file:///tmp/a", "file:///tmp/x%20y", "file://", "file:///C:/Users/x", "http://x/y", "file:///a%2Fb"]:
+            out.append({"flow": "file-root", "uri": uri})
+            out.append({"flow": "file-root", "uri": uri, "os_name": "nt"})
+        # the filesystem completion helper in a scratch directory, the enum completion helper
+        files = ["a.txt", "ab.py", "abc/", "abc/inner.txt", "b.txt", "A.TXT", "a b.md", ".hidden", "ü.txt"]
+        queries = [{"current": "a", "base": "$D"}, {"current": "", "base": "$D"}, {"current": "zz", "base": "$D"},
+                   {"current": "$D/a"}, {"current": "$D/abc/"}, {"current": "$D/abc/in"}, {"current": "a", "base": "$D", "extensions": [".txt"]},
+                   {"current": "a", "base": "$D", "extensions": [".py", ".md"]}, {"current": "", "base": "$D", "max_results": 1},
+                   {"current": "", "base": "$D", "max_results": 3}, {"current": "a", "base": "$D/does-not-exist"},
+                   {"current": "a", "chdir": True}, {"current": "$D/a.txt/x"}, {"current": "", "base": "$D", "extensions": []}]
+        enums = [{"current": c_, "allowed": ["Apple", "apricot", "Banana", "", "APPLE"], "case_sensitive": cs}
+                 for c_ in ("", "a", "A", "ap", "b", "z", "apple") for cs in (False, True)]
+        out.append({"flow": "complete-path", "files": files, "queries": queries, "enums": enums})
+        # the example user-input function of elicitation.py (prints; returns mock data by field type)
+        for schema in ({"type": "object", "properties": {"s": {"type": "string"}, "e": {"type": "string", "enum": ["x", "y"]},
+                                                           "b": {"type": "boolean"}, "i": {"type": "integer"}, "n": {"type": "number"},
+                                                           "o": {"type": "object"}, "u": {}}},
+                       {"type": "object", "properties": {}}, {}, {"properties": {"only": {"type": "string"}}}):
+            for title in (None, "T", ""):
+                out.append({"flow": "elicit-example", "message": rng.choice(["m", "", "%s"]), "schema": schema, "title": title})
+        # type aliases that really are aliases (typing.NewType objects named like an alias some module defines)
+        out.append({"flow": "alias-strategies", "values": ["a", "12", "", "x y"]})
         for inner in ("ok", "raise"):
             for outer in ("wrap", "pass", "raise"):
                 out.append({"flow": "registry-reentrant", "inner": inner, "outer": outer, "inner_value": rng.choice([{"v": 1}, "text", {}])})
@@ -1066,6 +1096,9 @@ class HelperFlows(Suite):
 
     # the handler outcome -> the generated builder call_tool uses for it (types/tools.py ToolRegistry.call_tool)
     def model_line(self, case):
+        if case["flow"] == "complete-path":
+            return {"m": "schema", "op": "enums", "j": schema_h.enc([[e["current"], e["allowed"], bool(e.get("case_sensitive"))]
+                                                                    for e in case.get("enums", [])])}
         if case["flow"] != "registry":
             return None
         k, v = case["ret"]["kind"], case["ret"]["value"]
@@ -1093,11 +1126,18 @@ class HelperFlows(Suite):
     def model_obs(self, out, case):
         if "driver_error" in out or out.get("untranslated") or not out.get("ok"):
             return {"skip": out.get("driver_error") or out.get("why") or "untranslated"}
+        if "enums" in out:
+            return {"enums": out["enums"]}
         return {"dump": schema_h.dec(out["dump"])}
 
     def compare(self, case, o, m):
         if "skip" in m:
             return None if m["skip"] == "untranslated" else "model: " + str(m["skip"])
+        if "enums" in m:
+            for side in ("fallback", "pydantic"):
+                if o[side].get("ok") and o[side].get("enums") != m["enums"]:
+                    return f"complete_enum_value differs from the model ({side}): {o[side].get('enums')} vs {m['enums']}"[:300]
+            return None
         for side in ("fallback", "pydantic"):
             r = o[side]
             if r.get("ok") and "propagated" not in r and not schema_h.same(r.get("emitted"), m["dump"]):
@@ -1119,6 +1159,11 @@ class HelperFlows(Suite):
         if not (p.get("ok") and f.get("ok")):
             return None  # the recipe could not drive the helper: counted as not executed
         d = first_diff(p, f)
+        if d and case["flow"] in SUPP_FLOWS:
+            if len(HelperFlows.supp_notes) < 10:
+                HelperFlows.supp_notes.append(f"{case['flow']}: backends differ at {d[0]}: {d[1]!r} vs {d[2]!r}"[:300])
+                print(f"INFO supplementary=helper-flows/{case['flow']} (not a verdict): backends differ at {d[0]}"[:300])
+            return None
         if d:
             return (f"helper-flow-differs:{case['flow']}", f"{case['flow']}: {d[0]} is {d[1]!r} under pydantic, {d[2]!r} under the fallback"[:300], None)
         return None
@@ -1143,6 +1188,62 @@ class HelperFlows(Suite):
                 pv = b["parse"].get("value") if fl == "content-kind" else b["parse"]
                 if bad is None and not schema_h.same(pv, em):
                     bad = "parse then dump differs from the serialised form"
+            elif fl == "file-root":
+                if "path" in case and not case.get("os_name"):
+                    if not str(b["root"].get("uri", "")).startswith("file://"):
+                        bad = "create_file_root does not produce a file:// uri"
+                    elif b["back"].get("value") != b["abspath"]:
+                        bad = f"parse_file_root(create_file_root(p)) is {b['back']!r}, the absolute path is {b['abspath']!r}"
+                if "uri" in case and "parsed" in b and case["uri"].startswith("file://") is False and "value" in b["parsed"]:
+                    bad = "parse_file_root accepts a uri that does not start with file://"
+                if case.get("uri") == "file:///C:/Users/x" and case.get("os_name") == "nt" and b["parsed"].get("value") != "C:/Users/x":
+                    bad = f"on Windows the leading slash of a drive path is removed; got {b['parsed']!r}"
+            elif fl == "complete-path":
+                import os.path as _p
+                listing = {"a.txt", "ab.py", "abc", "b.txt", "A.TXT", "a b.md", ".hidden", "ü.txt"}
+                for q, got in zip(case["queries"], b["results"]):
+                    cur = q["current"]
+                    prefix = _p.basename(cur) if cur.startswith("$D") else cur
+                    if len(got) > q.get("max_results", 50):
+                        bad = f"more than max_results suggestions for {q}"
+                    for g in got:
+                        if not _p.basename(g).startswith(prefix):
+                            bad = f"suggestion {g!r} does not start with the prefix {prefix!r}"
+                        if q.get("extensions") and _p.splitext(g)[1] not in q["extensions"]:
+                            bad = f"suggestion {g!r} has none of the extensions {q['extensions']}"
+                    if q == {"current": "a", "base": "$D"} and {_p.basename(g) for g in got} != {x for x in listing if x.startswith("a")}:
+                        bad = f"suggestions for prefix 'a' are {got}"
+                    if "does-not-exist" in str(q.get("base")) and got:
+                        bad = "suggestions from a directory that does not exist"
+                for e, got in zip(case.get("enums", []), b["enums"]):
+                    cs = e.get("case_sensitive", False)
+                    want = [v for v in e["allowed"] if (v if cs else v.lower()).startswith(e["current"] if cs else e["current"].lower())]
+                    if got != want:
+                        bad = f"complete_enum_value({e['current']!r}, case_sensitive={cs}) is {got}, the matching values are {want}"
+            elif fl == "elicit-example":
+                props = case["schema"].get("properties", {}) if isinstance(case["schema"], dict) else {}
+                want = {}
+                for k_, fs in props.items():
+                    ty_ = fs.get("type", "string")
+                    if ty_ == "string":
+                        want[k_] = fs["enum"][0] if "enum" in fs else f"user_input_for_{k_}"
+                    elif ty_ == "boolean":
+                        want[k_] = True
+                    elif ty_ == "integer":
+                        want[k_] = 42
+                    elif ty_ == "number":
+                        want[k_] = 3.14
+                if not schema_h.same(b["data"], want):
+                    bad = f"mock data {b['data']} for {props}"
+                elif b["response"].get("result") != {"data": b["data"], "cancelled": False} or b["workflow"] != "File deleted successfully":
+                    bad = f"response {b['response']} / workflow {b['workflow']!r}"
+                elif b.get("roundtrip") and not schema_h.same(b["roundtrip"].get("dump"), b["response"]["result"]):
+                    bad = "the example response does not round-trip through ElicitationResponse"
+            elif fl == "alias-strategies":
+                for place, rows in b["by_place"].items():
+                    for val, r_ in zip(case["values"], rows):
+                        if r_.get("value") != {"v": val, "w": val}:
+                            bad = f"a NewType-of-str member ({place}) given {val!r} is {r_}"
             elif fl == "completion-provider":
                 for r_ in b.get("results", []):
                     if "emitted" in r_ and not schema_h.same(r_.get("roundtrip", {}).get("dump"), r_["emitted"]):
@@ -1163,6 +1264,13 @@ class HelperFlows(Suite):
                 r = lossless(S, {"k": "ref", "cls": "ElicitationParams"}, case["wire"], b["request_params"])
                 if r:
                     bad = r[1]
+            if bad and fl in SUPP_FLOWS:
+                # helpers next to the property (path utilities, example functions, alias lookup): their
+                # docstring oracles are SUPPLEMENTARY — recorded, printed as INFO, never a verdict
+                if len(HelperFlows.supp_notes) < 10:
+                    HelperFlows.supp_notes.append(f"{fl} ({side}): {bad}"[:300])
+                    print(f"INFO supplementary=helper-flows/{fl} (not a verdict): {bad}"[:300])
+                continue
             if bad:
                 return (f"helper-output-not-lossless:{fl}", f"{fl} under the {side} backend: {bad}"[:300], None)
         return None
